@@ -4,6 +4,7 @@
 -/
 import CC.Drv.Common
 import CC.Drv.ChaCha
+import CC.Drv.Null
 open CC CC.Drv
 
 structure DS where
@@ -28,6 +29,7 @@ def step (ds : DS) (line : String) : DS × String :=
   | "chacha" :: _ | "guts" :: _ =>
     let (s, out) := CC.Drv.ChaCha.step ds.cfg ds.chacha toks
     ({ ds with chacha := s }, out)
+  | "null" :: _ => (ds, CC.Drv.Null.step ds.cfg toks)
   | _ => (ds, "bad-op")
 
 partial def loop (h : IO.FS.Stream) (out : IO.FS.Stream) (ds : DS) : IO Unit := do
